@@ -18,7 +18,7 @@ RULE = ('closed-loop histories in two or more operator incarnations: objects are
 ASSUMPTIONS = c02.ASSUMPTIONS[:4] + [
     'bounded liveness: the resume cycle must be over within sum(scripted delays) + 60 s after the last action',
 ]
-BUDGET = {'quick': 45, 'thorough': 1000}
+BUDGET = {'quick': 120, 'thorough': 1000}
 
 
 @st.composite
